@@ -383,10 +383,15 @@ func selectNodesForGraph(nodes Nodes, dropNegative bool) *Graph {
 		if n == nil {
 			continue
 		}
-		if n.Cum == 0 && n.Flat == 0 {
-			continue
-		}
-		if dropNegative && isNegative(n) {
+		if (n.Cum == 0 && n.Flat == 0) || (dropNegative && isNegative(n)) {
+			// The node is left out of the graph; so are its edges, which
+			// would otherwise refer to a node that is not there.
+			for src := range n.In {
+				delete(src.Out, n)
+			}
+			for dest := range n.Out {
+				delete(dest.In, n)
+			}
 			continue
 		}
 		gNodes = append(gNodes, n)
